@@ -42,7 +42,7 @@ RULE = ("forms of 0-6 parts over an adversarial alphabet (quotes, backslashes, '
         "single-byte edit of short bodies, truncations, random bytes, content-type variants; limits at n-1/n/n+1. "
         "A lossless case is non-trivial if it has >= 1 part whose name, filename or value is not a plain token; a "
         "mutation/limit case always is. Distinct by (content-type, body, config).")
-FLOORS = {"quick": 8000, "thorough": 300000}
+FLOORS = {"quick": 8000, "thorough": 800000}
 ASSUMPTIONS = [
     "the reference encoder emits only valid encodings (its boundary-absence and count assertions hold)",
     "urlencoded field names are compared as bytes: Tornado documents that keys are latin-1 decoded str",
@@ -296,15 +296,15 @@ def shards(tier, seed):
     q = tier == "quick"
     out = []
     for j in range(6):
-        out.append({"kind": "mp", "n": 1500 if q else 40000, "j": j})
+        out.append({"kind": "mp", "n": 1500 if q else 120000, "j": j})
     for j in range(2):
-        out.append({"kind": "mp_preamble", "n": 300 if q else 8000, "j": j})
+        out.append({"kind": "mp_preamble", "n": 300 if q else 20000, "j": j})
     for j in range(3):
-        out.append({"kind": "url", "n": 2000 if q else 50000, "j": j})
+        out.append({"kind": "url", "n": 2000 if q else 150000, "j": j})
     for j in range(6):
-        out.append({"kind": "safety", "n": 12 if q else 400, "edits_per_pos": 2 if q else 3, "j": j})
+        out.append({"kind": "safety", "n": 12 if q else 1000, "edits_per_pos": 2 if q else 3, "j": j})
     for j in range(3):
-        out.append({"kind": "limit", "n": 250 if q else 6000, "j": j})
+        out.append({"kind": "limit", "n": 250 if q else 15000, "j": j})
     return out
 
 
@@ -533,10 +533,11 @@ def run_case(case, ctx):
                 bare = dict(case, body=case["body"][pre_len:], classes=[])
                 o2, a2, f2, e2 = call(bare)
                 if o2 == "ok":
-                    ctx.violation("lossless/mp/preamble-not-ignored",
-                                  "a valid multipart body is rejected only because text (or a CRLF) precedes the "
-                                  "first boundary delimiter (RFC 2046 5.1.1: the preamble must be ignored)",
-                                  {"exc": repr(exc), "ct": case["ct"], "body": case["body"]})
+                    # UNSPECIFIED (lead's decision): the statement pins forms "encoded as multipart/form-data"
+                    # by a form encoder; no form encoder emits a MIME preamble, Tornado documents none, and the
+                    # repository's own test-suite relies on text before the first delimiter being parsed as a
+                    # part. Executed and counted, never gated.
+                    ctx.count("unspecified_preamble_rejected")
                     return
             mech = f"lossless/{k}/valid-body-rejected-{type(exc).__name__}"
             if k == "mp":
